@@ -35,7 +35,7 @@ def simplify_code(code, entry):
 
 
 class TS:
-    def __init__(self, code, entry, mode, senders, per_sender, max_yields=2, allow_fail=True, allow_nested=True, slack=2):
+    def __init__(self, code, entry, mode, senders, per_sender, max_yields=2, allow_fail=True, allow_nested=True, slack=2, act_entry=None, act_calls=0):
         self.code = code
         self.res, self.entry = simplify_code(code, entry)
         if not isinstance(self.entry, int):
@@ -43,6 +43,15 @@ class TS:
         self.mode = mode
         self.S = senders
         self.n = per_sender
+        # an optional extra thread/task that calls activate_initial_state() `act_calls` times (no event of its own)
+        self.A = 1 if (act_entry is not None and act_calls > 0) else 0
+        self.act_calls = act_calls
+        self.act_entry = self.res(act_entry) if self.A else None
+        if self.A and not isinstance(self.act_entry, int):
+            self.A = 0  # activation performs no shared operation at all
+        self.T = self.S + self.A
+        if self.T > 4:
+            raise Unsupported("more than 4 threads")
         self.top = [(t, j) for t in range(senders) for j in range(per_sender)]
         self.nE = len(self.top)
         self.allow_nested = allow_nested
@@ -54,7 +63,7 @@ class TS:
         self.we = max(2, (self.M + 1).bit_length())
         self.wq = max(2, (self.QS + 1).bit_length())
         # steps: every send needs PUT+ACQ (+ final QNE+REL for a drainer); every event QNE+POP+BEGIN+END (+NPUT, +yields, +CLEAR)
-        self.K = self.S * self.n * 4 + self.M * (4 + self.max_yields) + (self.M - self.nE) + self.nE + slack
+        self.K = self.S * self.n * 4 + self.M * (4 + self.max_yields) + (self.M - self.nE) + self.nE + slack + self.A * self.act_calls * 4
         self.solver = z3.SolverFor("QF_BV")
         self.nested = [z3.Bool(f"nested_{e}") for e in range(self.nE)]
         self.fails = [z3.Bool(f"fails_{e}") for e in range(self.M)]
@@ -77,7 +86,7 @@ class TS:
         return z3.BitVecVal(v, w)
 
     def mk_state(self, k):
-        S, M = self.S, self.M
+        S, M = self.T, self.M
         return {
             "pc": [z3.BitVec(f"pc_{k}_{t}", self.wpc) for t in range(S)],
             "sub": [z3.BitVec(f"sub_{k}_{t}", 2) for t in range(S)],
@@ -99,8 +108,8 @@ class TS:
     def init(self):
         s0 = self.states[0]
         add = self.solver.add
-        for t in range(self.S):
-            add(s0["pc"][t] == self.entry, s0["sub"][t] == 0, s0["cur"][t] == 0, s0["yl"][t] == 0, s0["sent"][t] == 0, z3.Not(s0["intrig"][t]))
+        for t in range(self.T):
+            add(s0["pc"][t] == (self.entry if t < self.S else self.act_entry), s0["sub"][t] == 0, s0["cur"][t] == 0, s0["yl"][t] == 0, s0["sent"][t] == 0, z3.Not(s0["intrig"][t]))
         add(z3.Not(s0["lock"]), s0["qh"] == 0, s0["qt"] == 0)
         add(z3.Not(s0["overlap"]), z3.Not(s0["dup"]), z3.Not(s0["misorder"]), z3.Not(s0["overflow"]))
         for i in range(self.QS):
@@ -109,16 +118,16 @@ class TS:
             add(s0["status"][e] == UNSENT)
 
     def all_done(self, s):
-        return z3.And(*[s["pc"][t] == self.PCDONE for t in range(self.S)])
+        return z3.And(*[s["pc"][t] == self.PCDONE for t in range(self.T)])
 
     # ------------------------------------------------------------------ one step
     def step(self, k):
         a, b = self.states[k], self.states[k + 1]
         add = self.solver.add
         sch = self.sched[k]
-        add(z3.ULT(sch, self.S))
+        add(z3.ULT(sch, self.T))
         done = self.all_done(a)
-        for t in range(self.S):
+        for t in range(self.T):
             add(z3.Implies(z3.And(sch == t, z3.Not(done)), a["pc"][t] != self.PCDONE))
         if self.mode == "asyncio" and k > 0:
             add(z3.Implies(sch != self.sched[k - 1], z3.Or(self.switch_ok[k - 1], done)))
@@ -128,12 +137,15 @@ class TS:
             upd.setdefault((var, idx), []).append((cond, val))
 
         switch_points = []
-        for t in range(self.S):
+        for t in range(self.T):
             me = z3.And(sch == t, z3.Not(done))
             pc, sub = a["pc"][t], a["sub"][t]
-            ev_top = self.bv(self.top.index((t, self.n - 1)), self.we)
-            for j in range(self.n - 1):
-                ev_top = z3.If(a["sent"][t] == j, self.bv(self.top.index((t, j)), self.we), ev_top)
+            if t < self.S:
+                ev_top = self.bv(self.top.index((t, self.n - 1)), self.we)
+                for j in range(self.n - 1):
+                    ev_top = z3.If(a["sent"][t] == j, self.bv(self.top.index((t, j)), self.we), ev_top)
+            else:
+                ev_top = None  # the activator sends nothing
             for i, ins in enumerate(self.code):
                 if ins.op not in SHARED:
                     continue
@@ -142,6 +154,9 @@ class TS:
                 alt = self.res(ins.alt) if ins.alt is not None else None
                 exc = self.res(ins.exc) if ins.exc is not None else None
                 if ins.op == "PUT":
+                    if ev_top is None:
+                        add(z3.Not(at))  # unreachable for the activator (its program contains no put)
+                        continue
                     self.do_put(setv, at, a, ev_top)
                     self.goto(setv, at, a, t, nxt, switch_points)
                 elif ins.op == "ACQ":
@@ -185,7 +200,7 @@ class TS:
                     c0 = z3.And(at, sub == 0)
                     setv(c0, "intrig", t, z3.BoolVal(True))
                     setv(c0, "sub", t, z3.If(has_child, self.bv(1, 2), self.bv(2, 2)))
-                    others = z3.Or(*[a["intrig"][u] for u in range(self.S) if u != t]) if self.S > 1 else z3.BoolVal(False)
+                    others = z3.Or(*[a["intrig"][u] for u in range(self.T) if u != t]) if self.T > 1 else z3.BoolVal(False)
                     setv(z3.And(c0, others), "overlap", None, z3.BoolVal(True))
                     for e in range(self.M):
                         setv(z3.And(c0, cur == e), "yl", t, self.nyield[e])
@@ -217,7 +232,7 @@ class TS:
                     self.goto(setv, z3.And(fin, z3.Not(failing)), a, t, nxt, switch_points)
         add(self.switch_ok[k] == (z3.Or(*switch_points) if switch_points else z3.BoolVal(False)))
         for var in ("pc", "sub", "cur", "yl", "sent", "intrig"):
-            for t in range(self.S):
+            for t in range(self.T):
                 add(b[var][t] == self.fold(upd.get((var, t), []), a[var][t]))
         for var in ("lock", "qh", "qt", "overlap", "dup", "misorder", "overflow"):
             add(b[var] == self.fold(upd.get((var, None), []), a[var]))
@@ -235,9 +250,9 @@ class TS:
 
     def goto(self, setv, cond, a, t, target, switch_points):
         if target in ("RET", "RAISE"):
-            last = a["sent"][t] == self.n - 1
+            last = a["sent"][t] == (self.n if t < self.S else self.act_calls) - 1
             setv(cond, "sent", t, a["sent"][t] + 1)
-            setv(z3.And(cond, z3.Not(last)), "pc", t, self.bv(self.entry, self.wpc))
+            setv(z3.And(cond, z3.Not(last)), "pc", t, self.bv(self.entry if t < self.S else self.act_entry, self.wpc))
             setv(z3.And(cond, last), "pc", t, self.bv(self.PCDONE, self.wpc))
             switch_points.append(cond)  # the sender's own code runs between two sends and may yield there
         else:
@@ -305,7 +320,7 @@ class TS:
         steps = []
         for k in range(self.K):
             a = self.states[k]
-            if all(iv(a["pc"][t]) == self.PCDONE for t in range(self.S)):
+            if all(iv(a["pc"][t]) == self.PCDONE for t in range(self.T)):
                 break
             t = iv(self.sched[k])
             pc, sub = iv(a["pc"][t]), iv(a["sub"][t])
@@ -327,7 +342,7 @@ class TS:
                 detail = iv(a["lock"])
             elif op == "QNE":
                 detail = iv(a["qt"]) != iv(a["qh"])
-            elif op == "PUT":
+            elif op == "PUT" and t < self.S:
                 detail = self.top.index((t, min(iv(a["sent"][t]), self.n - 1)))
             elif op == "POP":
                 qh = iv(a["qh"])
